@@ -649,6 +649,39 @@ pub fn detectors(m: &Model, ctx: &mut Ctx, rule: &str) {
             }
         }
     }
+    // a type is a parameterized template when it has a parameter list — or a component constrained by a parameter
+    if let Some(f) = m.fns.iter().find(|f| f.name == "is_parameterized" && f.self_ty.as_deref() == Some("ToplevelDefinition")) {
+        ctx.func(&f.key);
+        let pc = |param: bool| Val::List(vec![Val::Ctor("Subtype".into(), vec![Val::Opaque("s".into())], Map::new()), if param { Val::Ctor("Parameter".into(), vec![Val::Opaque("p".into())], Map::new()) } else { Val::Ctor("Subtype".into(), vec![Val::Opaque("t".into())], Map::new()) }]);
+        let mem = |param: bool| named("SequenceOrSetMember", vec![("name", Val::Str("m".into())), ("ty", neg()), ("constraints", pc(param))]);
+        let tld = |ty: Val, par: bool| Val::Ctor("Type".into(), vec![named("ToplevelTypeDefinition", vec![("name", Val::Str("T".into())), ("ty", ty), ("parameterization", if par { Val::some(Val::Opaque("params".into())) } else { Val::none() })])], Map::new());
+        let sq = |variant: &str, a: bool, b: bool| wrap(variant, named("SequenceOrSet", vec![("members", Val::List(vec![mem(a), mem(b)])), ("components_of", Val::List(vec![])), ("constraints", Val::List(vec![])), ("extensible", Val::none())]));
+        let hook2 = |_: &Evaluator, name: &str, a: &[Val]| -> Option<Result<Val, String>> {
+            match (name, a.first()) {
+                (".constraints", Some(Val::Ctor(_, p, _))) => match p.first() { Some(Val::Ctor(_, _, f)) => Some(Ok(f.get("constraints").cloned().unwrap_or(Val::List(vec![])))), _ => None },
+                _ => None,
+            }
+        };
+        let ev2 = Evaluator { consts: &consts, call_hook: &hook2, inline: Some(&inl) };
+        for (desc, v, want) in [
+            ("T {P} ::= BOOLEAN", tld(neg(), true), true),
+            ("T ::= BOOLEAN", tld(neg(), false), false),
+            ("T ::= SEQUENCE { a BOOLEAN (plain), b BOOLEAN (parameter) }", tld(sq("Sequence", false, true), false), true),
+            ("T ::= SET { a BOOLEAN (plain), b BOOLEAN (parameter) }", tld(sq("Set", false, true), false), true),
+            ("T ::= SEQUENCE { a BOOLEAN (plain), b BOOLEAN (plain) }", tld(sq("Sequence", false, false), false), false),
+        ] {
+            n += 1;
+            ctx.oblige(rule, &format!("is_parameterized:{}", desc), true);
+            let mut env = Env::new();
+            env.insert("self".into(), v);
+            match ev2.eval_fn_body(&f.block, &mut env) {
+                Ok(Val::Bool(b)) if b == want => {}
+                Ok(Val::Bool(b)) => { ctx.violate(rule, &format!("is_parameterized:{}", if want { "missed" } else { "false-positive" }), &f.file, f.line, &format!("ToplevelDefinition::is_parameterized says {} for `{}`", b, desc)); break }
+                Ok(o) => { ctx.fail_closed(rule, &format!("[is_parameterized on {}]: {}", desc, o.show())); break }
+                Err(e) => { ctx.fail_closed(rule, &format!("[is_parameterized on {}]: {}", desc, e)); break }
+            }
+        }
+    }
     ctx.floor(&format!("{}/evaluations", rule), n, 20);
 }
 
